@@ -88,7 +88,7 @@ pub fn act_flashloan(sim: &mut Sim, ctx: &mut Ctx) -> Option<Tx> {
     ixs.extend(inner);
     ixs.push(ix::end_flashloan(ma, u.authority, end_metas.clone()));
     // shape faults
-    match ctx.rng.below(19) {
+    match ctx.rng.below(21) {
         16 => {
             // the named "end" is a look-alike: a foreign program's instruction carrying the
             // end_flashloan discriminator and this account first - no real end anywhere
@@ -192,6 +192,36 @@ pub fn act_flashloan(sim: &mut Sim, ctx: &mut Ctx) -> Option<Tx> {
                     }
                 }
             }
+        }
+        13 | 14 => {
+            // the account is transferred to a new one INSIDE the bracket (keypair or PDA variant):
+            // the flag must not travel to the new account, and the end named by the start closes
+            // the old one
+            let g = ctx.world.groups[gi].clone();
+            let pda = ctx.rng.chance(1, 2);
+            let t = if pda {
+                let index = ctx.rng.range(9, 200) as u16;
+                let new = ix::account_pda(&g.key, &u.authority, index, None);
+                ix::transfer_to_new_account_pda(g.key, ma, new, u.authority, ctx.world.payer, u.authority, ctx.world.fee_wallet, index, None)
+            } else {
+                let new = ctx.rng.pubkey();
+                let mut t = ix::transfer_to_new_account(g.key, ma, new, u.authority, ctx.world.payer, u.authority, ctx.world.fee_wallet);
+                for m in t.accounts.iter_mut() {
+                    if m.pubkey == new {
+                        m.is_signer = true;
+                    }
+                }
+                t
+            };
+            let n = ixs.len();
+            ixs.insert(n - 1, t);
+            let n = ixs.len();
+            ixs[start_pos] = ix::start_flashloan(ma, u.authority, (n - 1) as u64);
+            // the end's risk list: the old account is empty by then
+            if ctx.rng.chance(1, 2) {
+                ixs[n - 1] = ix::end_flashloan(ma, u.authority, vec![]);
+            }
+            sim.stats.fault("tx_flashloan_account_transferred_inside_bracket");
         }
         7 => {
             // abort in the middle: a failing foreign instruction
@@ -297,6 +327,26 @@ pub fn act_bracket(sim: &mut Sim, ctx: &mut Ctx, kind: BracketKind) -> Option<Tx
         let o = sim.apply(Event::Tx(Tx::one("group_admin", ix::configure_bank(g.key, g.admins.admin, a_info.keys.bank, opt))));
         if o.map(|o| o.ok()).unwrap_or(false) {
             sim.stats.fault("tx_bracket_seized_bank_made_reduce_only");
+        }
+    }
+    // ... or was given a collateral-value cap far below its deposits (the cap scales what the
+    // collateral counts for towards NEW borrowing only - seizing it is still seizing its full value)
+    if ctx.rng.chance(1, 6) {
+        if let Some(lim) = a_info.keys.bank.ne(&l_info.keys.bank).then(|| *ctx.rng.pick(&[1u64, 5, 100])) {
+            let o = sim.apply(Event::Tx(Tx::one("limit_admin", ix::configure_bank_limits_only(g.key, g.admins.limit, a_info.keys.bank, None, None, Some(lim)))));
+            if o.map(|o| o.ok()).unwrap_or(false) {
+                sim.stats.fault("tx_bracket_seized_bank_capped");
+            }
+        }
+    }
+    // ... or is a bank whose token-less wind-down was declared complete (its deposits are still
+    // worth what the oracle says: a forced deleverage withdrawal from it counts towards the limit)
+    if kind == BracketKind::Deleverage && ctx.rng.chance(1, 5) && a_info.keys.bank != l_info.keys.bank {
+        let opt = marginfi_type_crate::types::BankConfigOpt { tokenless_repayments_allowed: Some(true), ..Default::default() };
+        sim.apply(Event::Tx(Tx::one("group_admin", ix::configure_bank(g.key, g.admins.admin, a_info.keys.bank, opt))));
+        let o = sim.apply(Event::Tx(Tx::one("risk_admin", ix::force_tokenless_repay_complete(g.key, g.admins.risk, a_info.keys.bank))));
+        if o.map(|o| o.ok()).unwrap_or(false) {
+            sim.stats.fault("tx_bracket_seized_bank_tokenless_complete");
         }
     }
     let a_bank = model::bank_of(&sim.store, &ab.bank_pk)?;
